@@ -64,6 +64,29 @@ FirstAmp == CHOOSE a \in Amps : TRUE
 FirstSet == CHOOSE x \in Settings(FirstAmp) : TRUE
 EmitSweepEntries == hist # <<>> \/ amp # FirstAmp \/ set # FirstSet \/ \A e \in SweepEntries : PrintT("@@" \o ToJson(e))
 
+(* ---- NF model curves: OpenROADM masks read at the input power per 50 GHz slot, on grids of other slot widths ---- *)
+\* 10 log10(50 GHz / slot width) and 10 log10(number of channels), micro-dB
+CurveSlots == {[mhz |-> 37500, ratioDb |-> 1249387], [mhz |-> 50000, ratioDb |-> 0],
+               [mhz |-> 75000, ratioDb |-> 0 - 1760913], [mhz |-> 100000, ratioDb |-> 0 - 3010300]}
+CurveNch   == {[n |-> 4, nDb |-> 6020600], [n |-> 8, nDb |-> 9030900]}
+CurvePch   == {0 - 28 * dB, 0 - 22 * dB, 0 - 16 * dB, 0 - 10 * dB, 0 - 4 * dB}      \* per-channel input power (dBm)
+\* one case: a contiguous comb of n channels of that slot width at pch each, through an amplifier of the model, unclamped;
+\* for the preamp mask (closed form) the expected NF is emitted, for the ILA the configured polynomial is judged by the
+\* trace specification against the library's coefficients
+CurveCases == {[model |-> m, slotMHz |-> s.mhz, slotRatioDb |-> s.ratioDb, nch |-> c.n, nchDb |-> c.nDb, pch |-> p,
+                pinTot |-> p + c.nDb,
+                nfPreamp |-> LET x == OrPin50(p + c.nDb, c.nDb, s.ratioDb) IN OrNf(x, OrPreampOsnr(x))] :
+                  m \in {"orIla", "orPreamp"}, s \in CurveSlots, c \in CurveNch, p \in CurvePch}
+EmitCurveCases == hist # <<>> \/ amp # FirstAmp \/ set # FirstSet \/ \A e \in CurveCases : PrintT("@@" \o ToJson(e))
+\* sanity of the laws themselves: same per-channel power in a 100 GHz slot is 3.01 dB less per 50 GHz; the preamp mask has its
+\* knee at -11 dBm (OSNR 33 dB above it, NF = P + 25), and below it NF = (3 P + 131) / 7; table interpolation is exact on a line
+ASSUME OrPin50(0 - 10 * dB + 9030900, 9030900, 0 - 3010300) = 0 - 13010300
+ASSUME OrNf(0 - 4 * dB, OrPreampOsnr(0 - 4 * dB)) = 21 * dB
+ASSUME OrNf(0 - 25 * dB, OrPreampOsnr(0 - 25 * dB)) = 8 * dB
+ASSUME LET t == [x0 |-> 0 - 100, step |-> 20, v |-> <<5, 45, 85, 125>>] IN
+          /\ InterpUniform(t, 0 - 100) = 5 /\ InterpUniform(t, 0 - 70) = 65 /\ InTable(t, 0 - 41) /\ ~InTable(t, 0 - 40)
+ASSUME PolyArg(12 * dB, 15 * dB, 25 * dB) = 0 - 10 * dB /\ PolyArg(27 * dB, 15 * dB, 25 * dB) = 0
+
 \* non-vacuity probes (each must be violated)
 ProbeSaturated == \A k \in H : ~hist[k].sat
 ProbePadded    == \A k \in H : hist[k].regime # "padded"
